@@ -25,5 +25,6 @@ if status == 'caught':
     meta['rule'] = note.split()[0]
 else:
     meta['expected'] = 'miss'
+meta.setdefault('first_run', status)
 json.dump(meta, open(os.path.join(d, 'meta.json'), 'w'), indent=1)
 print('stored', d, status)
